@@ -861,14 +861,22 @@ func (mvcc *MVCCLevelDB) Prewrite(req *kvrpcpb.PrewriteRequest) []error {
 				continue
 			}
 		}
-		if op == kvrpcpb.Op_CheckNotExists {
-			continue
-		}
-
 		pessimisticAction := kvrpcpb.PrewriteRequest_SKIP_PESSIMISTIC_CHECK
 		if len(req.PessimisticActions) > 0 {
 			pessimisticAction = req.PessimisticActions[i]
 		}
+		if op == kvrpcpb.Op_CheckNotExists {
+			// CheckNotExists writes no lock, but like in TiKV it is still refused by a lock of another
+			// transaction, by a version committed after startTS and by the transaction's own rollback.
+			if forUpdateTS == 0 {
+				if err = prewriteMutation(mvcc.getDB(""), &leveldb.Batch{}, m, startTS, primary, ttl, txnSize, pessimisticAction, minCommitTS, req.AssertionLevel); err != nil {
+					errs = append(errs, err)
+					anyError = true
+				}
+			}
+			continue
+		}
+
 		err = prewriteMutation(mvcc.getDB(""), batch, m, startTS, primary, ttl, txnSize, pessimisticAction, minCommitTS, req.AssertionLevel)
 		errs = append(errs, err)
 		if err != nil {
